@@ -4,6 +4,7 @@
 import Msmart.Driver.Util
 import Msmart.Model.PacketV2
 import Msmart.Spec.V2Spec
+import Msmart.Model.Reassembly
 
 namespace Msmart.Driver
 open Msmart Msmart.Model
@@ -18,6 +19,17 @@ def lanOp (op : String) (t : List String) : Option String :=
     match Spec.V2.decode (kvHex t "data") with
     | none => some "none"
     | some (i, f) => some s!"ok id={i} frame={toHex f}"
+  | "reasm" =>
+    -- successive data_received calls on a fresh protocol: per call the packets queued; final buffer
+    let segs := (((kvGet t "segs").getD "").splitOn ",").filterMap (fun h => if h = "" then none else ofHex h)
+    let rec go (buf : Bytes) (ss : List Bytes) (acc : List String) : List String × Bytes :=
+      match ss with
+      | [] => (acc.reverse, buf)
+      | s :: rest =>
+        let r := feed buf s
+        go r.2 rest ((";".intercalate (r.1.map toHex)) :: acc)
+    let (outs, buf) := go [] segs []
+    some ("q=" ++ "|".intercalate outs ++ " buf=" ++ toHex buf)
   | "udpid" => some (toHex (udpid (kvHex t "id")))
   | _ => none
 
